@@ -16,41 +16,53 @@ CONFIG = {
                  "token kind); wiring of validators / accessors regenerated from /repo and pinned by a theorem; back-end "
                  "models tied to the real crates by a differential through minimal isolating documents; plus exploration "
                  "(mutation corpus, parser options, chunked reads, base resolution, deep nesting in child processes) of parser totality",
-    "level_text": "Proof (unbounded, all strings) of the token-language contract: spec_contract — for every (syntax, token kind) "
-                  "of the safe list (blank node labels incl. the Turtle-family riog relabelling, variable names, language tags "
-                  "of the Rio back-ends and rio_xml, every IRI / IRI reference checked by oxiri: N-Triples, N-Quads, generalized "
-                  "N-Quads, Turtle/TriG IRIREFs, RDF/XML rdf:about / rdf:resource / rdf:datatype, datatypes; in subject, predicate, "
-                  "object, graph-name and quoted-triple positions) whatever the modelled back-end accepts is handed over as a string "
-                  "the validator regenerated from /repo accepts; generated JSON-LD labels; the configured base "
-                  "(Iri::new => oxiri::Iri::parse(..).unwrap() cannot fail). Soundness of the decision procedure is kernel-checked; each "
-                  "per-regex obligation is evaluated by native_decide. wiring_as_modelled pins what ties the regexes to validity in /repo "
-                  "(X::new is REGEX.is_match, new_unchecked validates under debug_assertions only and nowhere else do debug and release "
-                  "differ in the anchored files, which validator each rio accessor asserts). "
-                  "Where the inclusion is FALSE (unvalidated prefixed names / GTriG IRIREFs / "
-                  "RDF-XML qualified names, rdf:nodeID with trailing or double dots, Turtle-family object labels with a "
-                  "trailing dot) the full statement is refuted by a kernel-checked witness (spec_contract_full_refuted and the per-class "
-                  "…_refuted theorems) and reported as a finding with the witness document. rio/src/parser.rs error mapping: a small "
-                  "model (scripted back-end, failing callback), proved for every script and every number of calls to terminate "
-                  "(exactly script.length non-end answers, then Ok(false) for ever), never to panic, and to report every back-end error "
-                  "as SourceError where it happened (glue_run_terminates / glue_run_no_panic / glue_run_faithful), tied to the three real "
-                  "Source wrappers by a differential with scripted rio_api parsers. Exploration-strength support ONLY (no proof) for the rest "
-                  "of the property: termination, panic-freedom and stack use of the third-party parsers (rio_turtle, rio_xml/quick-xml, "
-                  "json-ld/json-syntax/iref) on arbitrary bytes is checked on a mutation corpus (every single-byte "
-                  "deletion / insertion / flip / truncation of valid documents per syntax, invalid UTF-8, structural "
-                  "near-misses, cross-syntax input, random bytes, very long tokens), each document also read through a 1..7-byte BufReader, "
-                  "JSON-LD under nine non-default option sets, references resolved against configured / in-document bases, and on nesting "
-                  "depths 16..10^5 run in child processes, collecting every accessor of every yielded term and what downstream code does with "
-                  "it (eq / cmp / hash / into_term / constituents / to_spo(g), against terms of every kind) in a dev build.",
-    "level_note": "Trusted: hand models of third-party recognisers (lean/SophiaModel/Model/Backend.lean; std's "
-                  "Ipv6Addr::from_str modelled as the RFC 3986 IPv6address production), tied by the `tok`/`trail`/`base` "
-                  "differential only; native_decide for the inclusion obligations; extract.py regex translator; the text patterns of "
-                  "tools/extractors/c08.py. JSON-LD IRIs (iref), language tags (langtag crate) and every RESOLVED reference (oxiri / iref "
-                  "resolution against a base) have no Lean model: exploration only, the oracle being the toolkit's own validators. "
-                  "Behaviour after the first stream error (calling try_for_some_item again) is not explored. Harness is a dev build "
-                  "(debug assertions on), 8 MiB stack for nesting runs; release builds are NOT run (the only debug/release switch of the "
-                  "anchored files is pinned by wiring_as_modelled; in a dev build the harness re-validates every string itself, so an "
-                  "invalid value that release would hand out silently is reported as accessor_panic / invalid_term).",
-    "tables": ["regexes", "parserwiring"],
+    "level_text": "PROVED for all strings (Lean 4, kernel-checked soundness of the regex decision procedure; per-regex obligations by "
+                  "native_decide): (a) spec_contract / specOf_contract — for every (syntax, token kind) of the safe list (blank node labels "
+                  "incl. the Turtle-family riog relabelling, variable names, language tags of the Rio back-ends and rio_xml, every IRI / IRI "
+                  "reference checked by oxiri in subject, predicate, object, graph-name, quoted-triple and datatype position, RDF/XML "
+                  "rdf:about / rdf:resource / rdf:datatype, JSON-LD blank node properties under produce_generalized_rdf since /repo ea054b4) "
+                  "whatever the modelled back-end accepts is handed over as a string the validator regenerated from /repo accepts; "
+                  "(b) the ACCESSOR LAYER in debug and release builds — access_safe_ok: reading such a term gives a valid value in both builds, "
+                  "never a panic; safe_is_exact / unsafe_debug_panic_release_invalid: the safe list is exact, every class outside it has an "
+                  "accepted token that panics when read in a debug build and is handed out invalid, silently, in a release build (the "
+                  "property's WHY clause, with kernel-checked witnesses replayed on the implementation by the corpus); "
+                  "release_panics_only_lang / lang_unchecked_panics_in_release: in release only LanguageTag::new_unchecked can panic, and it "
+                  "does on every tag LANG_TAG rejects; the validator each accessor asserts is READ from /repo (generated table), "
+                  "demanded_sub_asserted shows it is never narrower than what the property demands; "
+                  "(c) wiring_as_modelled / jsonld_rejects_invalid_bnode_labels pin what ties the regexes to validity in /repo (X::new is "
+                  "REGEX.is_match, new_unchecked validates under debug_assertions only — the single debug/release switch of the anchored "
+                  "files —, LanguageTag::new_unchecked is assert!(LANG_TAG.is_match), the accessor -> validator map, the JSON-LD label check); "
+                  "(d) the character classes of the hand models denote the same sets as the matches! arms of the third-party sources "
+                  "cargo compiles (rio_turtle, oxiri, rio_xml, oxilangtag at the versions of /repo/Cargo.lock; 9 *_as_source theorems over a "
+                  "generated table); (e) base_unwrap_safe: Iri::new => oxiri::Iri::parse(..).unwrap() cannot fail; "
+                  "(f) rio/src/parser.rs error mapping, over a scripted back-end and a failing callback: for every script and every number of "
+                  "calls the stream terminates (exactly script.length non-end answers, then Ok(false) for ever), never panics, and reports "
+                  "every back-end error as SourceError where it happened (glue_run_terminates / glue_run_no_panic / glue_run_faithful); the same "
+                  "for jsonld/src/parser/source.rs JsonLdQuadSource (json_run_quads: every quad once, a callback failure exactly where it "
+                  "happened, then Ok(false) for ever; json_run_err: the error once as SourceError; json_run_no_panic). "
+                  "REFUTED with kernel-checked witnesses and reported as findings: unvalidated prefixed names / GTriG IRIREFs / RDF-XML "
+                  "qualified names, rdf:nodeID with trailing or double dots, Turtle-family object labels with a trailing dot "
+                  "(spec_contract_full_refuted and the per-class …_refuted theorems). "
+                  "DIFFERENTIAL ONLY (no proof): that the hand models' control structure (label / tag state machines, oxiri's component "
+                  "order, IPv6) is what the crates do — `tok`/`trail`/`base` requests compare accepted / out / valid / acc with the real "
+                  "parsers and accessors in every position; the three real rio Source wrappers (scripted rio_api parsers) and the real JsonLdQuadSource vs the glue models. "
+                  "EXPLORATION ONLY: termination, panic-freedom and stack use of the third-party parsers (rio_turtle, rio_xml/quick-xml, "
+                  "json-ld/json-syntax/iref) on arbitrary bytes — mutation corpus (every single-byte deletion / insertion / flip / truncation "
+                  "of valid documents per syntax, invalid UTF-8, structural near-misses, cross-syntax input, random bytes, very long tokens, "
+                  "invalid documents with long non-ASCII data in their error messages), each document also read through a 1..7-byte "
+                  "BufReader, JSON-LD under nine non-default option sets, references resolved against configured / in-document bases "
+                  "(oxiri / iref resolution has no model; the oracle is the toolkit's validators), nesting depths 16..10^5 in child "
+                  "processes; every yielded term is read through all accessors and used as downstream code does (eq / cmp / hash / "
+                  "into_term / constituents / to_spo(g), against terms of every kind) in a dev build.",
+    "level_note": "Trusted: the control structure of the hand models of third-party recognisers (lean/SophiaModel/Model/Backend.lean; std's "
+                  "Ipv6Addr::from_str modelled as the RFC 3986 IPv6address production), tied by the differential only; native_decide for the "
+                  "inclusion / equivalence obligations; extract.py regex translator; the text patterns of tools/extractors/c08.py (a pattern "
+                  "that stops matching yields false / \"?\" / an extractor error, never a silent pass). JSON-LD IRIs (iref) and language tags "
+                  "(langtag crate) and every RESOLVED reference have no Lean model. Behaviour after the first stream error (calling "
+                  "try_for_some_item again) is not explored. Release builds are modelled (access false …) and pinned statically "
+                  "(uncheckedValidatesInDebugOnly, debugAssertionSites = 1, langUnchecked) but NOT run: the harness is a dev build and "
+                  "re-validates every string itself, so a value release would hand out silently shows up as accessor_panic / invalid_term.",
+    "tables": ["regexes", "parserwiring", "backendclasses"],
     "lean_targets": ["SophiaProofs.Props.C08", "SophiaProofs.Audit.C08"],
     "theorems": ["rio_bnode_sub_validator", "rio_var_sub_validator", "rio_lang_sub_validator",
                  "jsonld_bnode_sub_validator", "base_unwrap_safe",
@@ -63,12 +75,19 @@ CONFIG = {
                  "glue_run_terminates", "glue_run_no_panic", "glue_run_faithful",
                  "specOf_contract", "spec_contract", "spec_contract_full_refuted", "wiring_as_modelled",
                  "jsonld_bnode_pred_sub_validator_refuted", "jsonld_bnode_pred_sub_validator_partial",
-                 "jsonld_rejects_invalid_bnode_labels"],
+                 "jsonld_rejects_invalid_bnode_labels",
+                 "demanded_sub_asserted", "access_safe_ok", "unsafe_debug_panic_release_invalid", "safe_is_exact",
+                 "release_panics_only_lang", "lang_unchecked_panics_in_release",
+                 "json_run_quads", "json_run_err", "json_run_no_panic",
+                 "backend_versions_as_transcribed", "rio_pn_chars_base_as_source", "rio_pn_chars_u_as_source", "rio_pn_chars_as_source", 
+                 "oxiri_ius_as_source", "oxiri_us_as_source", "oxiri_query_as_source", "xml_name_start_as_source", "xml_name_char_as_source", "grandfathered_as_source"],
     "native_ok": ["rio_bnode_sub_validator", "rio_var_sub_validator", "rio_lang_sub_validator",
                   "jsonld_bnode_sub_validator", "base_unwrap_safe", "oxiri_abs_sub_validator",
                   "oxiri_ref_sub_validator", "xml_nodeid_sub_validator_partial",
                   "riog_suffix_sub_validator", "ttl_bnode_disambiguated_sub_validator", "specOf_contract", "spec_contract",
-                  "jsonld_bnode_pred_sub_validator_partial"],
+                  "jsonld_bnode_pred_sub_validator_partial", "access_safe_ok", "safe_is_exact",
+                  "rio_pn_chars_base_as_source", "rio_pn_chars_u_as_source", "rio_pn_chars_as_source", 
+                  "oxiri_ius_as_source", "oxiri_us_as_source", "oxiri_query_as_source", "xml_name_start_as_source", "xml_name_char_as_source", "grandfathered_as_source"],
     "trivial_re": r"^accepted=0( emitted=none)?$|^new=0$|^skip|^bad-",
     "rule": "One private PRNG stream per request family (seeded up-front from the run seed), so that an edit of one regex of /repo "
             "cannot reshuffle the other families. "
@@ -88,6 +107,7 @@ CONFIG = {
             "above the root, IP literals, rootless bases, non-IRIs) and sampled ones, resolved against a configured base, @base / BASE / "
             "xml:base, a second directive relative to the first, @prefix namespaces, rdf:ID, JSON-LD @base (in context, nested, with a "
             "base option). "
+            "glue j: JsonLdQuadSource with 0..5 quads x every callback failure position, and the one-shot error. "
             "glue: every script of <=3 parse_step calls over {0,1,2 items} x {ok, parser error} with the callback failing at "
             "each item (sampled in quick), through StrictRioTripleSource / StrictRioQuadSource / GeneralizedRioSource. "
             "doc (exploration, no model): 21 valid seed documents over 8 syntaxes (JSON-LD incl. @direction, @json, @nest, @included, "
